@@ -110,6 +110,14 @@ def synth_bytes(which):
             del tb[Tag.SECTION_DIVIDER_SETTING]
             blk.key = Tag.NESTED_SECTION_DIVIDER_SETTING
             tb[Tag.NESTED_SECTION_DIVIDER_SETTING] = blk
+        elif which == "both":               # both keys present, with different blend modes
+            import copy
+            from psd_tools.constants import BlendMode
+
+            blk = copy.deepcopy(tb[Tag.SECTION_DIVIDER_SETTING])
+            blk.key = Tag.NESTED_SECTION_DIVIDER_SETTING
+            blk.data.blend_mode = BlendMode.MULTIPLY
+            tb[Tag.NESTED_SECTION_DIVIDER_SETTING] = blk
         o = io.BytesIO()
         psd.save(o)
         _BYTES[key] = o.getvalue()
@@ -242,11 +250,14 @@ def alpha(layer):
     tb = r.tagged_blocks
     f = r.flags
     kc = kind_code(layer)
-    d = tb.get_data(Tag.SECTION_DIVIDER_SETTING)
-    lsct = None
-    if d is not None:
-        lsct = dict(kind=int(d.kind), sig=bool(d.signature), blend=bkey(d.blend_mode),
+    def div(d):
+        if d is None:
+            return None
+        return dict(kind=int(d.kind), sig=bool(d.signature), blend=bkey(d.blend_mode),
                     sub=None if d.sub_type is None else int(d.sub_type))
+
+    lsct = div(tb.get_data(Tag.SECTION_DIVIDER_SETTING))
+    lsdk = div(tb.get_data(Tag.NESTED_SECTION_DIVIDER_SETTING))
     blk = tb.get(Tag.PROTECTED_SETTING)
     psd = layer._psd
     if kc in (2, 4):
@@ -267,7 +278,7 @@ def alpha(layer):
         iopa=(lambda v: None if v is None else int(v))(tb.get_data(Tag.BLEND_FILL_OPACITY)),
         docw=int(psd.width) if psd is not None else 0, doch=int(psd.height) if psd is not None else 0,
         box=box, ancvis=bool(layer.parent is not None and layer.parent.is_visible()),
-        pixels=pixel_digest(layer),
+        pixels=pixel_digest(layer), lsdk=lsdk,
     )
 
 
@@ -293,7 +304,8 @@ def obs_raw(st):
             + [int(st["tp"]), int(st["vis"]), st["fbits"], st["opacity"], st["rblend"], int(st["clip"]),
                st["left"], st["top"], st["right"], st["bottom"]]
             + ([0] if d is None else [1, d["kind"], int(d["sig"])] + enc_opt(d["blend"]) + enc_opt(d["sub"]))
-            + enc_opt(st["lspf"]) + enc_opt(st["iopa"]) + [int(st["attached"]), st["pixels"]])
+            + enc_opt(st["lspf"]) + enc_opt(st["iopa"]) + [int(st["attached"]), st["pixels"]]
+            + (lambda k: [0] if k is None else [1, k["kind"], int(k["sig"])] + enc_opt(k["blend"]) + enc_opt(k["sub"]))(st.get("lsdk")))
 
 
 def obs(layer):
@@ -319,13 +331,15 @@ def copt(o, f=zz):
 
 
 def layer_lit(st):
-    d = st["lsct"]
-    dl = "None" if d is None else "(Some (mkSdiv %s %s %s %s))" % (zz(d["kind"]), cb(d["sig"]), copt(d["blend"]), copt(d["sub"]))
-    return "(mkLayer %s %s %s %s %s %s %s %s %s %s %s %s %s %s %s %s %s %s %s (%s,%s,%s,%s) %s %s)" % (
+    def dlit(d):
+        return "None" if d is None else "(Some (mkSdiv %s %s %s %s))" % (zz(d["kind"]), cb(d["sig"]), copt(d["blend"]), copt(d["sub"]))
+
+    dl = dlit(st["lsct"])
+    return "(mkLayer %s %s %s %s %s %s %s %s %s %s %s %s %s %s %s %s %s %s %s (%s,%s,%s,%s) %s %s %s)" % (
         KIND_COQ[st["kind"]], cb(st["attached"]), zl(st["rname"]), copt(st["luni"], zl), cb(st["tp"]), cb(st["vis"]),
         zz(st["fbits"]), zz(st["opacity"]), zz(st["rblend"]), cb(st["clip"]), zz(st["left"]), zz(st["top"]),
         zz(st["right"]), zz(st["bottom"]), dl, copt(st["lspf"]), copt(st["iopa"]), zz(st["docw"]), zz(st["doch"]),
-        st["box"][0], st["box"][1], st["box"][2], st["box"][3], cb(st["ancvis"]), zz(st["pixels"]))
+        st["box"][0], st["box"][1], st["box"][2], st["box"][3], cb(st["ancvis"]), zz(st["pixels"]), dlit(st.get("lsdk")))
 
 
 def op_lit(op):
@@ -348,7 +362,7 @@ def op_lit(op):
 
 
 def cfg_lit(cfg):
-    return "(mkCfg %s %s %s %s)" % (cb(cfg[0]), cb(cfg[1]), cb(cfg[2]), cb(cfg[3]))
+    return "(mkCfg %s)" % " ".join(cb(x) for x in cfg)
 
 
 # ------------------------------------------------------------------ running a history on the implementation
@@ -609,6 +623,12 @@ def _obs_len(out, i):
     j += 2 if out[j] else 1         # lspf
     j += 2 if out[j] else 1         # iopa
     j += 2                          # attached, pixels
+    if out[j]:                      # lsdk
+        j += 3
+        j += 2 if out[j] else 1
+        j += 2 if out[j] else 1
+    else:
+        j += 1
     return j - i
 
 
@@ -633,7 +653,7 @@ core.KNOWN_CLASSIFIERS["F-C16-4"] = lambda fl: (
     fl["kind"] in ("move-size", "pixels") and _pre(fl).get("kind") == 6 and _fill_edge(fl))
 core.KNOWN_CLASSIFIERS["F-C16-5"] = lambda fl: (
     fl["kind"] == "get-set" and fl.get("attr") == "blend_mode" and _is_group(_pre(fl)) and _pre(fl).get("lsct", 0) is None
-    and fl.get("value") == PASS and fl.get("observed") == NORM)
+    and _pre(fl).get("lsdk") is not None and fl.get("value") == PASS and fl.get("observed") == NORM)
 
 
 def _fill_edge(fl):
@@ -697,7 +717,12 @@ def detect_cfg():
         fix_ctor = Group.new("\u0416")._record.name == "?"
     except Exception:  # noqa
         fix_ctor = False
-    return (fix_group, fix_lock, fix_clip, fix_ctor)
+    try:        # c16_group_setting_lsdk: Group._setting sees a divider stored under 'lsdk'
+        lg = at_path(open_bytes(synth_bytes("lsdk")), (1,))
+        fix_lsdk = lg.blend_mode == BlendMode.PASS_THROUGH
+    except Exception:  # noqa
+        fix_lsdk = False
+    return (fix_group, fix_lock, fix_clip, fix_lsdk, fix_ctor)
 
 
 # ------------------------------------------------------------------ generators
@@ -728,16 +753,16 @@ OPACITIES_BAD = [-1, 256]
 BAD_BLEND = [int.from_bytes(b"xxxx", "big"), 0, int.from_bytes(b"Norm", "big")]
 
 
-def subjects(ck, cfg=(True, True, True, True)):
+def subjects(ck, cfg=(True, True, True, True, True)):
     out = [("file", rel, path) for rel, path in FILE_SUBJECTS]
-    out += [("synth", "bare_lsct"), ("synth", "lsdk")]
+    out += [("synth", "bare_lsct"), ("synth", "lsdk"), ("synth", "both")]
     for host in ("empty", "busy"):
         out.append(("new_group", cps("Group"), 1, host))
         out.append(("new_group", cps("Gr\u00fcppe \u2122"), 0, host))
     for host in ("none", "empty", "busy"):
         out.append(("new_pixel", cps("Layer"), 2, 3, 4, 3, host))
         out.append(("new_pixel", cps("px"), -2, 0, 1, 1, host))
-    if cfg[3]:      # names mac_roman cannot express at creation: saveable since cc4d99c (before: F-C19-3, property C19)
+    if cfg[4]:      # names mac_roman cannot express at creation: saveable since cc4d99c (before: F-C19-3, property C19)
         out.append(("new_group", cps("\u0413\u0440\u0443\u043f\u043f\u0430"), 1, "busy"))
         out.append(("new_pixel", [0x65E5, 0x672C, 0x1F600], 1, 1, 2, 2, "empty"))
     return out
@@ -789,7 +814,7 @@ def random_edit(rng, w, h):
     return ("set", "lock", rng.choice(LOCKS + LOCKS_BAD[:1] + [0, 4]), rng.randrange(3))
 
 
-def histories(ck, cfg=(True, True, True, True)):
+def histories(ck, cfg=(True, True, True, True, True)):
     """yield (subject, ops)"""
     thorough = ck.tier == "thorough"
     subs = subjects(ck, cfg)
@@ -847,9 +872,10 @@ def run():
     if ok:
         ck.collect_theorems("C16.v")
     cfg = detect_cfg()
-    ck.notes.append("tree under test: fix_group=%s fix_lock=%s fix_clip=%s fix_ctor=%s (behavioural probes)" % cfg)
+    ck.notes.append("tree under test: fix_group=%s fix_lock=%s fix_clip=%s fix_lsdk=%s fix_ctor=%s (behavioural probes)" % cfg)
     listed = {f["id"] for f in ck.known}
-    for flag, fid, name in ((cfg[0], "F-C16-1", "group_blend_mode"), (cfg[1], "F-C16-2", "lock_without_block"), (cfg[2], "F-C16-3", "clipping_detached")):
+    for flag, fid, name in ((cfg[0], "F-C16-1", "group_blend_mode"), (cfg[1], "F-C16-2", "lock_without_block"), (cfg[2], "F-C16-3", "clipping_detached"),
+                            (cfg[3], "F-C16-5", "group_setting_lsdk")):
         # the positive theorems are about fixed_cfg: the tree must contain the repair, or the finding must be listed as open
         ck.obligations.append(("tree-matches-fixed_cfg-or-listed:" + name, bool(flag) or fid in listed,
                                "" if (flag or fid in listed) else "the tree lacks the repair %s and %s is not an open known finding" % (name, fid)))
